@@ -75,11 +75,29 @@ func zzC03Value(kind int) (v any, present bool, truthy bool) {
 		return map[string]any{}, true, true
 	case 20:
 		return zzC03Struct{}, true, true
+	// named types follow their underlying kind
+	case 21:
+		n := zzC03MyInt(zzInt("n", -1, 1))
+		return n, true, n != 0
+	case 22:
+		b := zzC03MyBool(zzBool("b"))
+		return b, true, bool(b)
+	case 23:
+		s := zzC03MyStr([]string{"", "x"}[zzChoice("s", 2)])
+		return s, true, s != ""
+	case 24:
+		f := zzC03MyFloat([]float64{0, 2.5}[zzChoice("f", 2)])
+		return f, true, f != 0
 	}
 	return nil, false, false
 }
 
-const zzC03Kinds = 21
+type zzC03MyInt int
+type zzC03MyBool bool
+type zzC03MyStr string
+type zzC03MyFloat float64
+
+const zzC03Kinds = 25
 
 const zzC03TruthyTpl = `<p v-if="v">P-IF</p><p v-else>P-ELSE</p>` +
 	`<q v-if="no">x</q><q v-else-if="v">Q-ELIF</q><q v-else>Q-ELSE</q>` +
